@@ -132,6 +132,8 @@ def r1_5(ctx):
         def value(e, env, state):
             """Concrete value of a (erased) condition expression under the instantiation."""
             k = e[0]
+            if k == "discr" and mode is not None and e[1] == ("arg", mode):
+                return f.enum_variants(MODE_TY)[env[("arg", mode)]]
             if k == "discr":
                 x = e[1]
                 off = offset_of(x)
@@ -269,6 +271,8 @@ def r1_5_ep(ctx):
                     for x, y in ((a, k), (k, a)):
                         if x == ("field", ("arg", piece), "color") and y[0] == "agg" and y[1] == "board::PieceColor":
                             colour = y[2]
+            elif d[0] == "bin" and d[1] == "Ne" and tr is False and ((d[2] == ("arg", row) and d[3][0] == "const") or (d[3] == ("arg", row) and d[2][0] == "const")):
+                rowk = d[3][1] if d[2] == ("arg", row) else d[2][1]
             elif d[0] == "bin" and d[1] == "Eq" and tr is False:
                 for x, y in ((d[2], d[3]), (d[3], d[2])):
                     if x == ("field", ("arg", piece), "color") and y[0] == "agg" and y[1] == "board::PieceColor":
@@ -296,6 +300,14 @@ class Undecided(Exception):
     pass
 
 
+_MODE_DISCR = {}     # variant name -> discriminant of MoveGenerationMode (filled from the facts by the rules)
+
+
+def _note_modes(f):
+    _MODE_DISCR.clear()
+    _MODE_DISCR.update(f.enum_variants(MODE_TY))
+
+
 def _truth(d, mode_local, piece, mode, state, is_sq):
     """Value of a boolean condition for one generation mode and one state of the probed square.
     `is_sq(e)`: is e the probed square?  Raises Undecided for anything the table does not determine."""
@@ -303,6 +315,9 @@ def _truth(d, mode_local, piece, mode, state, is_sq):
     k = d[0]
     if k == "const" and isinstance(d[1], bool):
         return d[1]
+    if k == "discr" and mode_local is not None and d[1] == ("arg", mode_local) and mode in _MODE_DISCR:
+        # `match mode { AllMoves => .., CapturesOnly => .. }`, e.g. of an inlined predicate method on the mode
+        return _MODE_DISCR[mode]
     if k == "un" and d[1] == "Not":
         return not _truth(d[2], mode_local, piece, mode, state, is_sq)
     if k == "bin" and d[1] in ("BitOr", "BitAnd", "BitXor"):
@@ -335,10 +350,7 @@ def _feasible(p, mode_local, piece, mode, state, is_sq):
         d = erase(c[0])
         if d[0] == "discr" and d[1][0] == "call" and d[1][1].endswith("::next"):
             continue
-        tr = cond_truth(c)
-        if tr is None:
-            raise Undecided(d)
-        if _truth(d, mode_local, piece, mode, state, is_sq) != tr:
+        if not _holds(c, _truth(d, mode_local, piece, mode, state, is_sq)):
             return False
     return True
 
@@ -348,6 +360,7 @@ def _pushes(p, moves):
 
 
 def _ray_generator(ctx, f, kind, want_dirs):
+    _note_modes(f)
     fn = GEN[kind]
     b = xbody(f, fn)
     ctx.note_fn(fn)
@@ -416,6 +429,7 @@ def _step_generator(ctx, f, kind):
     CapturesOnly only if not empty.  Decided as a decision table of one iteration of the innermost
     loop around the pushes: for each (mode, state of the probed square) exactly one path through the
     iteration is taken, and it pushes the probed square's coordinates once or not at all."""
+    _note_modes(f)
     fn = GEN[kind]
     b = xbody(f, fn)
     ctx.note_fn(fn)
@@ -516,27 +530,70 @@ def r13_2(ctx):
 def r1_6(ctx):
     """Enumeration shape: every square of the board, pieces of the side to move, six kinds to six
     generators, castling exactly in AllMoves."""
+    from wa.cond import specialise
     f = ctx.facts
-    b = f.body("move_generation::get_moves")
-    ctx.note_fn("move_generation::get_moves", "move_generation::generate_moves")
-    ex = Exprs(b)
+    ctx.note_fn("move_generation::generate_moves")
     kinds = f.enum_variant_by_discr("board::PieceKind")
+    # the dispatch on the piece kind that fills the target list, wherever it lives: the function(s), other
+    # than the generators themselves, that call a per-kind generator.  For each kind K the body specialised
+    # under `kind == K` must reach exactly K's generator (any number of syntactic call sites), handing on
+    # the piece whose kind was matched, its square, the board and the mode.
+    gens = set(GEN.values())
+    homes = []
+    for fn in f.body_names():
+        if fn in gens or not f.has_body(fn):
+            continue
+        raw = f.d["bodies"][fn]
+        if any(blk["term"]["k"] == "call" and (blk["term"].get("resolved") or blk["term"].get("callee")) in gens for blk in raw["blocks"] if not blk["cleanup"]):
+            homes.append(fn)
     m = {}
-    for blocks, dec in enum_paths(b, ex):
-        kind = None
-        for d, (vals, oth) in dec.items():
-            if d[0] == "discr" and not oth and len(vals) == 1:
-                kind = kinds.get(vals[0])
-        for bb in blocks:
-            t = b.term(bb)
-            if t["k"] == "call" and f.has_body(callee_of(t) or ""):
-                m[kind] = callee_of(t)
-                # arguments are passed through unchanged
-                args = ex.call_args(bb)
-                okargs = all(strip_refs(a)[0] == "arg" for a in args)
-                if not okargs:
-                    m[kind] = "?args"
-    ctx.ob("get_moves:kind-to-generator", m == GEN, b.file, "dispatch %s" % {k: (v or "?").split("::")[-1] for k, v in m.items()})
+    where = "src/move_generation.rs"
+    if len(homes) != 1:
+        ctx.ob("get_moves:kind-to-generator", False, where, "the per-kind generators are called from %d functions: %s" % (len(homes), [h.split("::")[-1] for h in homes]), reason="shape-not-recognised")
+    else:
+        b = xbody(f, homes[0])
+        ctx.note_fn(homes[0])
+        where = b.file
+        ex = Exprs(b)
+        scruts = set()
+        for bb in b.normal:
+            if bb in b.reachable and b.term(bb)["k"] == "switch":
+                d = ex.switch_discr(bb)
+                if d[0] == "discr" and "PieceKind" in str(d[2]) and any(callee_of(b.term(x)) in gens for x in b.reach_from(bb) if b.term(x)["k"] == "call"):
+                    scruts.add(strip_refs(d[1]))
+        if len(scruts) != 1:
+            ctx.ob("get_moves:kind-to-generator", False, where, "no single `match <piece>.kind` in front of the generator calls (%d scrutinees)" % len(scruts), reason="shape-not-recognised")
+        else:
+            X = next(iter(scruts))
+            piece_e = X[1] if X[0] == "field" and X[2] == "kind" else None
+            us = [i for i in range(1, b.arg_count + 1) if b.local_ty(i) == "usize"]
+            pts = [i for i in range(1, b.arg_count + 1) if b.local_ty(i) == "board::Point"]
+            for dv, K in sorted(kinds.items()):
+                b2, ex2, _dead = specialise(b, {X: ("eq", K)}, {X: kinds})
+                called = set()
+                okargs = True
+                for bb, t in b2.iter_calls():
+                    c = callee_of(t)
+                    if c not in gens:
+                        continue
+                    called.add(c)
+                    cb = f.body(c)
+                    args = [strip_refs(a) for a in ex2.call_args(bb)]
+                    for i, a in enumerate(args):
+                        ty = cb.local_ty(i + 1)
+                        if ty == "board::Piece":
+                            okargs = okargs and piece_e is not None and a == strip_refs(piece_e)
+                        elif ty in ("&board::BoardState", MODE_TY):
+                            okargs = okargs and a[0] == "arg" and b.local_ty(a[1]) == ty
+                    coords = [a for i, a in enumerate(args) if cb.local_ty(i + 1) == "usize"]
+                    if len(us) == 2:
+                        okargs = okargs and coords == [("arg", us[0]), ("arg", us[1])]
+                    elif len(pts) == 1:
+                        okargs = okargs and coords == [("field", ("arg", pts[0]), "0"), ("field", ("arg", pts[0]), "1")]
+                    else:
+                        okargs = False
+                m[K] = next(iter(called)) if len(called) == 1 and okargs else ("?args" if len(called) == 1 else "?%d" % len(called))
+            ctx.ob("get_moves:kind-to-generator", m == GEN, where, "dispatch %s" % {k: (v or "?").split("::")[-1] for k, v in m.items()})
     # generate_moves: one iteration of the innermost loop around the generate_moves_for_piece call, by
     # symbolic execution.  The element the iteration works on is a generic element of what is iterated:
     # nested `for i in a..b { for j in a..b` and a lazy chain `(a..b).flat_map(|i| (a..b).map(move |j| ..))
@@ -609,12 +666,24 @@ def r1_6(ctx):
             why64 = why = "generate_moves_for_piece is called with different arguments on different paths"
     ctx.ob("generate_moves:visits-64-squares", ok64, g.file, why64)
     ctx.ob("generate_moves:own-pieces", okown, g.file, why)
-    cc = g.calls_to("move_generation::generate_castling_moves")
-    ok = len(cc) == 1
+    # castling exactly in AllMoves: on the body specialised under mode == M the call is made on every
+    # path to the return (M = AllMoves) resp. is unreachable (M = CapturesOnly); whether the mode is
+    # compared with `==`, matched, or asked through a predicate method makes no difference
+    GCM = "move_generation::generate_castling_moves"
+    cc = g.calls_to(GCM)
+    ok = len(cc) == 1 and not any(cc[0][0] in body_ for body_ in loops.values())
+    detail = []
     if ok:
-        bb, t = cc[0]
-        facts_ = [(strip_refs(d), vals, excl) for d, vals, excl, s, tg in dominating_facts(g, gex, bb)
-                  if not (strip_refs(d)[0] == "discr" and strip_refs(d)[1][0] == "call" and strip_refs(d)[1][1].endswith("::next"))]
-        ok = any(d[0] == "bin" and d[1] == "Eq" and {strip_refs(d[2]), strip_refs(d[3])} == {("arg", mp), ("agg", MODE_TY, "AllMoves", ())} and ((vals is None and excl == [0]) or vals == [1])
-                 for d, vals, excl in facts_) and len(facts_) == 1 and not any(bb in body_ for body_ in loops.values())
-    ctx.ob("generate_moves:castling-iff-AllMoves", ok, g.file, "generate_castling_moves is called once, after the loops, exactly when mode == AllMoves")
+        modes = f.enum_variant_by_discr(MODE_TY)
+        for M in sorted(modes.values()):
+            g2, gex2, _dead = specialise(g, {("arg", mp): ("eq", M)}, {("arg", mp): modes})
+            sites = [bb for bb, t in g2.iter_calls(callee=GCM)]
+            if M == "AllMoves":
+                rets = g2.return_blocks()
+                must = bool(sites) and all(not g2.reaches(0, r, removed_nodes=set(sites)) and r != 0 for r in rets)
+                ok = ok and must
+                detail.append("AllMoves: called on every path: %s" % must)
+            else:
+                ok = ok and not sites
+                detail.append("%s: never called: %s" % (M, not sites))
+    ctx.ob("generate_moves:castling-iff-AllMoves", ok, g.file, "generate_castling_moves is called once, after the loops, exactly when mode == AllMoves (%s)" % "; ".join(detail))
